@@ -83,6 +83,11 @@ def n_parse_int(sp):
     return {'ret': ('val', z3.If(PARSE_INT_OK(s, r), VInt(PARSE_INT(s, r)), VNone))}
 
 
+def pow10_instances(vals):
+    p = POW(z3.RealVal(10), z3.ToReal(as_index(vals[1])))
+    return [z3.Implies(as_index(vals[1]) >= 0, z3.And(z3.IsInt(p), p >= 1))]
+
+
 LIB = [
     LibFn('mathAbs', 'library._math_abs', '_MATH_ABS_ARGS', None, m_abs),
     LibFn('mathAcos', 'library._math_acos', '_MATH_ACOS_ARGS', None, unary('acos', lambda x: z3.And(x >= -1, x <= 1))),
@@ -104,3 +109,7 @@ LIB = [
     LibFn('numberParseInt', 'library._number_parse_int', '_NUMBER_PARSE_INT_ARGS', None, n_parse_int,
           inline=('value.value_parse_integer',)),
 ]
+
+for _c in LIB:
+    if _c.script_name == 'mathRound':
+        _c.fact_instances = pow10_instances
